@@ -226,3 +226,5 @@ func (g *procGen) withInits(ss []proc.Stmt) []proc.Stmt {
 	}
 	return append(out, ss...)
 }
+
+func procRender(ss []proc.Stmt, full bool) string { return proc.RenderStmts(ss, full) }
